@@ -88,21 +88,50 @@ def h_optim(H):
     S = H.session("ns_optim")
 
     def body(it):
+        import ast
+        from pyvc import interp as I_
         ns = z3.Int("ns")
         H.input(ns=ns)
-        p2, p3 = np.meshgrid(2 ** np.arange(25), 3 ** np.arange(15))
-        sz = np.unique((p2 * p3).flatten())
-        # all 2-3-smooth numbers up to the largest one that the table provably covers
-        smooth = sorted({2 ** a * 3 ** b for a in range(0, 60) for b in range(0, 40) if 2 ** a * 3 ** b <= int(sz[-1])})
-        limit = next((s for s in smooth if s not in set(sz.tolist())), int(sz[-1]) + 1) - 1      # first smooth number missing from the table
-        limit = max(s for s in sz.tolist() if s <= limit)
-        it.ctx.assume(z3.And(ns >= 1, ns <= limit))
-        r = run_function(it, F.ns_optim_fft, [SV(ns)])
-        rt = term(r)
+        # the table is whatever the function builds before its look-up (no free variable: built natively by the statements themselves)
+        node, filename = I_.SOURCES.funcdef(F.ns_optim_fft)
+        envt = I_.Env(None, F.ns_optim_fft.__globals__, qualname="ns_optim_fft", filename=filename)
+        envt.vars["ns"] = 1
+        it.exec_block([st for st in node.body if not isinstance(st, ast.Return)], envt)
+        tabs = [v for v in envt.vars.values() if isinstance(v, np.ndarray) and v.ndim == 1 and v.dtype.kind in "iu" and v.size > 8]
+        if len(tabs) != 1:
+            raise Unsupported("cannot identify the table of fast sizes in ns_optim_fft()")
+        sz = tabs[0]
+        if not (np.all(np.diff(sz) > 0)):
+            raise Unsupported("the table of fast sizes is not strictly increasing")
+        # (E) exhaustive native facts about the concrete table: strictly increasing (checked above), made of numbers 2^a 3^b only, and complete:
+        # every 2^a 3^b up to `limit` is an entry
+        allsmooth = sorted({2 ** a * 3 ** b for a in range(0, 64) for b in range(0, 41) if 2 ** a * 3 ** b <= int(sz[-1])})
+        entries = set(int(v) for v in sz.tolist())
+        it.ctx.oblige("optim.table.entries_are_2a3b", z3.BoolVal(entries <= set(allsmooth)), "post", "every table entry is of the form 2^a 3^b (all entries enumerated)")
+        missing = [v for v in allsmooth if v not in entries]
+        limit = (missing[0] - 1) if missing else int(sz[-1])
+        limit = max(v for v in entries if v <= limit)
+        it.ctx.oblige("optim.table.complete_for_practical_sizes", z3.BoolVal(limit >= 10 ** 15), "post", f"every 2^a 3^b up to {limit} is in the table (enumerated)")
+        # (P) the look-up, over an abstract strictly increasing table of that length (the proof uses nothing else about its values)
+        n = int(np.searchsorted(sz, limit)) + 1               # entries up to and including `limit`
+        T = A.fresh_array("fast_sizes", "int64", (len(sz),), ranged=False)
+        k1, k2 = z3.Int(fresh_name("k")), z3.Int(fresh_name("k"))
+        it.ctx.assume(z3.ForAll([k1, k2], z3.Implies(z3.And(k1 >= 0, k1 < k2, k2 < len(sz)), T.uf(k1) < T.uf(k2)), patterns=[z3.MultiPattern(T.uf(k1), T.uf(k2))]))
+        lim_t = T.read((z3.IntVal(n - 1),))
+        it.ctx.assume(z3.And(ns >= 1, ns <= lim_t))
+        name = [k_ for k_, v in envt.vars.items() if v is sz][0]
+        envt.vars[name] = T
+        envt.vars["ns"] = SV(ns)
+        try:
+            it.exec_block([st for st in node.body if isinstance(st, ast.Return)], envt)
+            raise Unsupported("ns_optim_fft() does not end with a return")
+        except I_.ReturnEx as e:
+            rt = term(e.v)
         it.ctx.oblige("optim.not_below", rt >= ns, "post")
-        table = [int(v) for v in sz if v <= limit]
-        it.ctx.oblige("optim.is_table_value", z3.Or(*[rt == v for v in table]), "post", "result is of the form 2^a 3^b", assume=False)
-        it.ctx.oblige("optim.smallest", z3.And(*[z3.Implies(ns <= v, rt <= v) for v in table]), "post", f"no smaller 2^a 3^b >= ns (all smooth numbers <= {limit} are table values: checked natively)", assume=False)
+        kk = z3.Int(fresh_name("k0"))
+        it.ctx.assume(z3.And(kk >= 0, kk < len(sz)))
+        it.ctx.oblige("optim.is_table_value", z3.Exists([k1], z3.And(k1 >= 0, k1 < len(sz), rt == T.read((k1,)))), "post", "the result is a table entry, hence of the form 2^a 3^b", assume=False)
+        it.ctx.oblige("optim.smallest", z3.Implies(ns <= T.read((kk,)), rt <= T.read((kk,))), "post", "no table entry (arbitrary k0) lies in [ns, result): with completeness of the table, no smaller 2^a 3^b >= ns", assume=False)
         H.limit = limit
     S.explore(body)
 
